@@ -166,6 +166,20 @@ CURATED = [
     "def p(m: Qmatrix[bool, 3, 2], i: Qint[2], j: Qint[2]) -> bool:\n\treturn m[i][j]",
     "def p(m: Qmatrix[bool, 2, 3], i: Qint[2], j: Qint[2]) -> bool:\n\treturn m[i][j]",
     "def p(m: Qmatrix[bool, 3, 2]) -> bool:\n\ts = False\n\tfor x in m[2]:\n\t\ts = s ^ x\n\treturn s",
+    # augmented assignments with NON-commutative operators (the rewriter turns `x op= e` into `x = x op e`)
+    "def p(a: Qint[2], b: Qint[2]) -> Qint[2]:\n\ta -= b\n\treturn a",
+    "def p(a: Qint[4], b: Qint[2]) -> Qint[4]:\n\ta -= b\n\ta -= 1\n\treturn a",
+    "def p(a: Qint[4]) -> Qint[4]:\n\ta %= 4\n\treturn a",
+    "def p(a: Qint[4]) -> Qint[4]:\n\ta <<= 1\n\treturn a",
+    "def p(a: Qint[4]) -> Qint[4]:\n\ta >>= 2\n\treturn a",
+    "def p(a: Qint[2], b: Qint[2]) -> Qint[2]:\n\ta ^= b\n\ta &= 2\n\ta |= b\n\treturn a",
+    "def p(a: Qint[2], b: Qint[2]) -> Qint[4]:\n\tc = 3\n\tc -= a\n\tc += b\n\treturn c",
+    "def p(a: bool, b: bool) -> bool:\n\tc = a\n\tc ^= b\n\tc &= a\n\treturn c",
+    # nested tuples whose rows have different lengths: loops / builtins over a row other than the first
+    "def p(a: Tuple[Tuple[bool, bool], Tuple[bool, bool, bool]]) -> bool:\n\ts = False\n\tfor x in a[1]:\n\t\ts = s ^ x\n\treturn s",
+    "def p(a: Tuple[Tuple[bool, bool], Tuple[bool, bool, bool]]) -> bool:\n\treturn all(a[1]) or any(a[0])",
+    "def p(a: Tuple[Tuple[Qint[2], Qint[2]], Tuple[Qint[2], Qint[2], Qint[2]]]) -> Qint[4]:\n\treturn sum(a[1]) + max(a[0])",
+    "def p(a: Tuple[Tuple[bool, bool, bool], Tuple[bool, bool]]) -> bool:\n\ts = False\n\tfor x in a[1]:\n\t\ts = s ^ x\n\tfor y in a[0]:\n\t\ts = s ^ y\n\treturn s",
     # modulo: literal power of two, literal non-power (outside the subset), variable modulus
     "def p(a: Qint[4]) -> Qint[4]:\n\treturn a % 4",
     "def p(a: Qint[4]) -> Qint[4]:\n\treturn a % 3",
